@@ -474,6 +474,10 @@ pub enum Op {
     Swap { user: u8, from: u8, to: u8, amt: Amt },
     SwapThereAndBack { user: u8, from: u8, to: u8, amt: Amt },
     Collect { caller: u8 },
+    /// a swap sized by bisection over the Simulation query so that the pending protocol fee of the
+    /// ask asset lands exactly on `target` (999 / 1000 / 1001 = around the collection threshold),
+    /// optionally followed by a separately judged collection
+    SwapToPending { user: u8, from: u8, to: u8, target: u16, then_collect: bool },
     /// adversarial: direct `WithdrawLiquidity {}` with a native coin attached (cw20-LP pool)
     WithdrawDirect { user: u8, denom: u8, amount: Uint128 },
     /// adversarial: a cw20 Receive hook from the wrong place
@@ -511,6 +515,8 @@ fn op() -> BoxedStrategy<Op> {
         7 => (0u8..4, 0u8..3, 0u8..3, amt110()).prop_map(|(user, from, to, amt)| Op::Swap { user, from, to, amt }),
         2 => (0u8..4, 0u8..3, 0u8..3, amt110()).prop_map(|(user, from, to, amt)| Op::SwapThereAndBack { user, from, to, amt }),
         1 => (0u8..5).prop_map(|caller| Op::Collect { caller }),
+        2 => (0u8..4, 0u8..3, 0u8..2, prop_oneof![3 => Just(1000u16), 1 => Just(999u16), 1 => Just(1001u16), 1 => 1u16..3000], proptest::bool::weighted(0.8))
+            .prop_map(|(user, from, to, target, then_collect)| Op::SwapToPending { user, from, to, target, then_collect }),
         1 => (0u8..4, 0u8..3, prop_oneof![Just(1u128), Just(1000), gen::amount(1, 1u128 << 70)]).prop_map(|(user, denom, a)| Op::WithdrawDirect { user, denom, amount: Uint128::new(a) }),
         1 => (0u8..4, prop_oneof![Just(0u8), Just(2u8)], any::<bool>(), prop_oneof![Just(1u128), Just(1000), gen::amount(1, 1u128 << 60)]).prop_map(|(user, via, swap_hook, a)| Op::ForgedHook { user, via, swap_hook: if via == 2 { true } else { swap_hook }, amount: Uint128::new(a) }),
         1 => gen::small_fee_triple().prop_map(|f| Op::SetFees { fees: [Uint128::new(f[0]), Uint128::new(f[1]), Uint128::new(f[2])] }),
@@ -548,7 +554,7 @@ impl Check for TrioHistory {
         "trio_history"
     }
     fn rule(&self) -> &'static str {
-        "live trio through the factory (kinds native/cw20, fees, amp) with an initial deposit, then up to 30/80 operations {provide, balanced provide, withdraw, swap i->j (all six directions, native or cw20), swap there-and-back, collect, fee change, amp ramp with values on/inside/outside every bound, block advance}; after every step: Pool query succeeds and balance >= reserve + pending fee; exact D* per LP at the amp of the executing block not lower (listed finding matched against the integer Newton scheme); only offer and ask reserves move in a swap; a there-and-back pair of swaps leaves the trader with no more of either asset; Config's ramp parameters equal the reference model (linear in block height), an accepted ramp satisfies all three documented bounds and one satisfying them is not rejected; the pool's simulation agrees with the hooked curve at the model's effective amp. Non-trivial: a ramp in progress during >= 1 successful swap and >= 1 successful deposit."
+        "live trio through the factory (kinds native/cw20, fees, amp) with an initial deposit, then up to 30/80 operations {provide, balanced provide, withdraw, swap i->j (all six directions, native or cw20), swap there-and-back, swap sized by bisection over the Simulation query so that the ask asset's pending protocol fee lands on 999 / 1000 / 1001 (the collection threshold) followed by a collection, collect, fee change, amp ramp with values on/inside/outside every bound, block advance}; after every step: Pool query succeeds and balance >= reserve + pending fee; exact D* per LP at the amp of the executing block not lower (listed finding matched against the integer Newton scheme); only offer and ask reserves move in a swap; a there-and-back pair of swaps leaves the trader with no more of either asset; Config's ramp parameters equal the reference model (linear in block height), an accepted ramp satisfies all three documented bounds (a rejected ramp inside the bounds is counted, not judged: the statement bounds acceptance only); the pool's simulation agrees with the hooked curve at the model's effective amp. Non-trivial: a ramp in progress during >= 1 successful swap and >= 1 successful deposit."
     }
     fn strategy(&self, tier: Tier) -> BoxedStrategy<Case> {
         let max_ops = tier.pick(30usize, 80usize);
@@ -598,12 +604,54 @@ impl Check for TrioHistory {
         let mut before = tw.view().map_err(|e| Fail::new(format!("Pool query failed: {e}")))?;
         let mut swaps_in_ramp = 0;
         let mut deposits_in_ramp = 0;
-        for (step, op) in c.ops.iter().enumerate() {
+        let mut ops: Vec<Op> = Vec::with_capacity(c.ops.len() + 4);
+        for op in &c.ops {
+            ops.push(op.clone());
+            if let Op::SwapToPending { user, then_collect: true, .. } = op {
+                ops.push(Op::Collect { caller: *user });
+            }
+        }
+        for (step, op) in ops.iter().enumerate() {
             tw.msg_order = [0, 1, 2];
             let h = tw.w.app.block_info().height;
             let a_now = amp.at(h);
             let in_ramp = amp.stop != 0 && h < amp.stop && amp.initial != amp.target;
             let mut check_value = false;
+            let resolved: Op;
+            let op = if let Op::SwapToPending { user, from, to, target, .. } = op {
+                let usr = tw.user(*user);
+                let fi = (*from % 3) as usize;
+                let ti = (fi + 1 + (*to % 2) as usize) % 3;
+                let target = *target as u128;
+                if before.pending[ti] >= target || before.reserves[fi] == 0 {
+                    continue;
+                }
+                let need = target - before.pending[ti];
+                let fee_of = |tw: &TrioWorld, x: u128| tw.simulate(fi, ti, x).ok().map(|s| s.protocol_fee_amount.u128());
+                let cap = before.reserves[fi].saturating_mul(4).min(tw.w.bal(&tw.infos[fi], &usr));
+                let (mut lo, mut hi) = (1u128, cap);
+                if hi < 1 || fee_of(&tw, hi).map(|f| f < need).unwrap_or(true) {
+                    continue;
+                }
+                while lo < hi {
+                    let mid = lo + (hi - lo) / 2;
+                    match fee_of(&tw, mid) {
+                        Some(f) if f >= need => hi = mid,
+                        _ => lo = mid + 1,
+                    }
+                }
+                if fee_of(&tw, lo) != Some(need) {
+                    continue;
+                }
+                rec.class("swap_sized_to_pending_fee_target");
+                if target == 1000 {
+                    rec.class("pending_fee_aimed_exactly_at_collection_threshold");
+                }
+                resolved = Op::Swap { user: *user, from: fi as u8, to: ti as u8, amt: Amt::Abs(Uint128::new(lo)) };
+                &resolved
+            } else {
+                op
+            };
             match op {
                 Op::Provide { user, a, ord } => {
                     tw.msg_order = [[0, 1, 2], [0, 2, 1], [1, 0, 2], [1, 2, 0], [2, 0, 1], [2, 1, 0]][(*ord % 6) as usize];
@@ -755,6 +803,7 @@ impl Check for TrioHistory {
                         check_value = true;
                     }
                 }
+                Op::SwapToPending { .. } => unreachable!(),
                 Op::Collect { caller } => {
                     let who = if *caller == 4 { tw.w.owner.clone() } else { tw.user(*caller) };
                     if tw.collect(&who).is_ok() {
@@ -848,11 +897,9 @@ impl Check for TrioHistory {
                                 "step {step}: ramp to {future_a} over {dblocks} blocks accepted although outside the bounds (effective amp {a_now}, height {h})"
                             )));
                         }
-                        (Err(e), true) => {
-                            return Err(Fail::new(format!(
-                                "step {step}: ramp to {future_a} over {dblocks} blocks rejected although within [1,10^6], a factor 10 of the effective amp {a_now} and >= {MIN_RAMP_BLOCKS} blocks: {e}"
-                            )));
-                        }
+                        // The statement bounds what may be ACCEPTED; it does not promise that every ramp inside
+                        // the bounds is taken (a stricter pool still satisfies it), so this is counted, not judged.
+                        (Err(_), true) => rec.class("ramp_within_bounds_rejected"),
                     }
                     // stored parameters equal the model
                     let cfg = tw.config().map_err(|e| Fail::new(format!("Config query failed: {e}")))?;
